@@ -62,10 +62,33 @@ def call(w, e, st):
             recv, ts = ts[0], ts[1:]
         args = ts[: len(e.args)]
         kwargs = tuple((k.arg or "**", v) for k, v in zip(e.keywords, ts[len(e.args) :]))
+        is_starred = starred
         if starred:
+            # f(*t, **d) with a tuple display / a dict display with constant keys: spliced in place
+            flat_args, ok = [], True
+            for node, v in zip(e.args, args):
+                if isinstance(node, ast.Starred):
+                    if isinstance(v, tuple) and len(v) == 4 and v[0] == "lit" and v[1] in ("tuple", "list"):
+                        flat_args.extend(v[2])
+                    else:
+                        ok = False
+                else:
+                    flat_args.append(v)
+            flat_kw = []
+            for n, v in kwargs:
+                if n == "**":
+                    if isinstance(v, tuple) and len(v) == 4 and v[0] == "lit" and v[1] == "dict" and all(is_const(k) and isinstance(k[2], str) for k, _x in v[2]):
+                        flat_kw.extend((k[2], x) for k, x in v[2])
+                    else:
+                        ok = False
+                else:
+                    flat_kw.append((n, v))
+            if ok:
+                args, kwargs, is_starred = tuple(flat_args), tuple(flat_kw), False
+        if is_starred:
             s = s.copy()
             s.ev("starred-call", w.site(e))
-        res.extend(dispatch(w, e, target, recv, args, kwargs, s, starred))
+        res.extend(dispatch(w, e, target, recv, args, kwargs, s, is_starred))
     return outs + res
 
 
@@ -254,6 +277,12 @@ def bind_params(w, e, fi, args, kwargs, skip_first):
     for n, t in zip(names, args):
         mp[n] = t
     extra_names = []
+    if a.kwarg:
+        # **rest receives the surplus keyword arguments as a dict
+        known = set(names) | set(kwonly)
+        surplus = [(n, t) for n, t in kwargs if n not in known and n != "**"]
+        mp["**" + a.kwarg.arg] = ("lit", "dict", tuple((C(n), t) for n, t in surplus), None)
+        extra_names.append("**" + a.kwarg.arg)
     if a.vararg:
         # *rest receives the surplus positional arguments as a tuple
         mp["*" + a.vararg.arg] = ("lit", "tuple", tuple(args[len(names):]), None)
@@ -265,7 +294,8 @@ def bind_params(w, e, fi, args, kwargs, skip_first):
             return None, "multiple values for argument %s" % n
         if n not in names and n not in kwonly and not a.kwarg:
             return None, "unexpected keyword argument %s" % n
-        mp[n] = t
+        if n in names or n in kwonly:
+            mp[n] = t
     # defaults
     pos_defaults = a.defaults
     all_pos = fi.params()
@@ -482,7 +512,7 @@ def _param_names(t):
 def _is_callable_term(t):
     if not isinstance(t, tuple) or not t:
         return False
-    if len(t) == 2 and t[0] == "global" and t[1].startswith(("func:", "class:")):
+    if len(t) == 2 and t[0] == "global" and t[1].startswith(("func:", "class:", "ext:", "builtin:")):
         return True
     if t[0] == "closure" or (t[0] in ("gen", "nt") and len(t) == 3) or t[0] == "excobj":
         return True
